@@ -69,7 +69,7 @@ def floors(tier):
     return {'evaluations': 20000, 'distinct_nontrivial': 3000, 'splits_checked': 50000, 'keyval_checked': 8000,
             'histkeys:sep': 6, 'hist:policy:first': 500, 'hist:policy:concatenate': 500, 'hist:policy:error': 500,
             'hist:policy:last': 500, 'repeated_keys_seen': 1000, 'keyval_second_call_on_same_list': 5000,
-            'keyval_default_values_used': 5000, 'all_arguments_info_checked': 1000, 'arginfo_keyval_option_calls': 10000, 'split_at_node_on_lists_with_none': 500, 'histkeys:keyval_separators': 2,
+            'keyval_default_values_used': 5000, 'all_arguments_info_checked': 1000, 'arginfo_keyval_option_calls': 10000, 'split_at_node_on_lists_with_none': 500, 'separators_left_in_the_unsplit_remainder': 300, 'histkeys:keyval_separators': 2,
             'histkeys:arginfo_constructor': 2, 'content_as_chars_checked': 500, 'keyval_callable_policy_calls': 1000, 'hist:keyval_default:list': 2000,
             'lists_with_none_entries': 2000, 'argument_info_checked': 4000,
             'double_group_same_delimiters': 200, 'double_group_other_delimiters': 200}
@@ -237,6 +237,15 @@ def check_split_at_node(s, nl, max_split, keep_separators, rec, skip_none=True):
         for o in it:
             if not pred(o):
                 return 'split_at_node: a trailing non-separator node was dropped'
+        # every split consumes exactly one separator node; separators that were not used for splitting (beyond max_split)
+        # stay in the unsplit remainder
+        n_sep_in = sum(1 for n in orig if pred(n))
+        n_sep_out = sum(1 for n in flat if pred(n))
+        if n_sep_in - n_sep_out != len(parts) - 1:
+            return 'split_at_node(max_split=%r): %d separator nodes are missing from the parts but %d splits were performed ' \
+                   '(the remainder after the last split must stay as it is)' % (max_split, n_sep_in - n_sep_out, len(parts) - 1)
+        if max_split is not None and n_sep_out:
+            rec.monitor('separators_left_in_the_unsplit_remainder')
     if max_split is not None and len(parts) - 1 > max_split:
         return 'split_at_node: %d splits performed with max_split=%d' % (len(parts) - 1, max_split)
     return None
